@@ -131,7 +131,11 @@ class Engine(GenericConcreteEngine[Callable[..., Any]]):
                     return tree, commutator.done, commutator.messages
                 else:
                     upstream, done, messages = self.backtrack_unary(commutator.first, target, preferred)
-                    if upstream is not target:
+                    if upstream is not target or (done and commutator.second is not tree.operation):
+                        # Either something was inserted upstream, or the
+                        # insertion was a no-op there but the commutator still
+                        # replaces the existing operation (e.g. a calculation
+                        # the new projection makes unnecessary).
                         result = commutator.second._finish_apply(upstream)
                     else:
                         result = tree
